@@ -14,8 +14,11 @@ transcription `py_valid`, cross-checked against Lean's `validB`, which `validB_i
 to `Valid`):
   * accepted  ⇒ every clause of the property's list holds  (else C18:<hole>),
   * invalid   ⇒ rejected with TOMLConfigError              (else C18:invalid-rejected-with-…),
-  * accepted (and valid) ⇒ REPEX_state + initiate_ensembles + load_paths(valid initial paths)
-    + the first W picks (prep_md_items) raise nothing,
+  * accepted (and valid) ⇒ REPEX_state + initiate_ensembles + load_paths_from_disk + load_paths (valid initial
+    paths whose extreme order value sits exactly ON an interface — own, higher, cap, last, λ0, λ₋₁ — or strictly
+    inside) + the first W picks (prep_md_items) raise nothing, and the weight row of every initial path is the
+    one the property demands (entry j of a shooting ensemble = 1 iff λ_j ≤ max, non-strict; all entries equal to
+    the Lean model Infretis.WF.cvVector of calc_cv_vector),
   * restart.toml written by REPEX_state.write_toml, read back by setup_config, equals the
     configuration it was written from (except current.restarted_from), and initialises again through the
     real setup_internal (stored paths read by load_paths_from_disk) up to the first W picks,
@@ -211,19 +214,30 @@ class Real:
         initiate_ensembles, load_paths, write_toml; keep its text/dict, its stored paths and a data file"""
         import tomli
         c = mkcase((0, 2, 4), 1, (0, 0, 1), cap=3)
+        self.base_case = c
+        problem = None
         code, cfg = self.setup(to_dict(c, self.tmp))
+        self.base_restart = None
         if cfg is None:
-            raise RuntimeError(f"base configuration not accepted: {code}")
-        stage, err, st = initialise(cfg)
-        if err:
-            raise RuntimeError(f"base configuration does not initialise: {stage} {err}")
-        store_paths([st._trajs[i] for i in range(st.n - 1)])
-        st.write_toml()
-        with open("restart.toml", "rb") as f:
-            self.base_restart = tomli.load(f)
+            problem = ("setup_config", code)
+        else:
+            stage, err, st, _, _ = initialise(cfg)
+            if err:
+                problem = (stage, err)
+            else:
+                store_paths([st._trajs[i] for i in range(st.n - 1)])
+                st.write_toml()
+                with open("restart.toml", "rb") as f:
+                    self.base_restart = tomli.load(f)
+        if self.base_restart is None:
+            # the library could not write one (reported by the caller): the table write_toml would have written
+            store_paths(initial_paths(to_dict(c, self.tmp)))
+            self.base_restart = {"current": {"traj_num": 3, "cstep": 0, "active": [0, 1, 2], "locked": [],
+                                             "size": 3, "frac": {}}}
         self.restart_data = os.path.join(self.tmp, "restart_data.txt")
         with open(self.restart_data, "w") as f:
             f.write("# " + "=" * 58 + "\n# \txxx\tlen\tmax OP\t\t000\t001\t002\n# " + "=" * 58 + "\n")
+        return problem
 
     def setup_restart(self, d, two_files=False):
         """the real setup_config on a restart file (or on an input file with a matching restart file next to it)"""
@@ -280,38 +294,121 @@ def mkpath(ops, pnum):
     return p
 
 
-def initial_paths(cfg):
-    """one valid path per ensemble: [0-] dips below λ0 and comes back; [i+] climbs from below λ0 in unit
-    steps (interfaces and cap are integers, so it visits every level on the way) up to λ_i and returns"""
-    intf = cfg["simulation"]["interfaces"]
-    l0 = int(intf[0])
-    paths = [mkpath([l0 + 1, l0 - 0.5, l0 + 1], 0)]
-    for i in range(len(intf) - 1):
-        up = list(range(l0 - 1, int(intf[i]) + 1))
-        paths.append(mkpath(up + up[-2::-1], i + 1))
-    return paths
+FAMILIES = ("on-own", "inside", "on-higher", "on-cap", "to-last")
+BOUNDARY = ("on-own", "on-higher", "on-cap", "to-last")
 
 
-def initialise(cfg):
-    """REPEX_state → initiate_ensembles → load_paths → first W picks.  Returns (stage, error kind|None, state)."""
+def climb(lo, peak, back=True):
+    """unit steps from `lo` up to `peak` (a last fractional step if needed) and, if `back`, down again"""
+    import math
+    up = [float(x) for x in range(int(lo), int(math.floor(peak)) + 1)]
+    if peak != up[-1]:
+        up.append(float(peak))
+    return up + (up[-2::-1] if back else [])
+
+
+def initial_orders(cfg, family="on-own"):
+    """order sequences of one VALID initial path per ensemble (valid per Path.check_interfaces: ≤ / ≥), with the
+    extreme value exactly ON an interface for the boundary families:
+      on-own     max of the [i+] path == λ_i          [0-] starts and ends exactly ON λ0
+      on-higher  max == λ_{i+1} (a higher inner interface);  with a λ₋₁: [0-] runs R→L and ends exactly ON λ₋₁
+      on-cap     max == interface_cap where the cap is ≥ λ_i (else λ_i)
+      to-last    the [i+] path runs L→R and ends exactly ON the last interface
+      inside     max == λ_i + ½, [0-] turns strictly inside
+    Plus paths climb in unit steps (interfaces and cap are integers, so every level on the way is visited)."""
+    sim = cfg["simulation"]
+    intf = [int(x) for x in sim["interfaces"]]
+    n = len(intf)
+    l0 = intf[0]
+    cap = sim["tis_set"].get("interface_cap")
+    lm1 = sim["tis_set"].get("lambda_minus_one", False)
+    if lm1 is not False and family in ("on-higher", "to-last"):
+        minus = [float(l0), (l0 + lm1) / 2, float(lm1)]
+    elif family == "inside":
+        minus = [l0 + 1.0, l0 - 0.5, l0 + 1.0]
+    else:
+        minus = [float(l0), l0 - 0.5, float(l0)]
+    out = [minus]
+    for i in range(n - 1):
+        li = intf[i]
+        if family == "to-last":
+            out.append(climb(l0 - 1, intf[-1], back=False))
+            continue
+        if family == "inside":
+            peak = li + 0.5
+        elif family == "on-higher":
+            peak = intf[max(i, min(i + 1, n - 2))]
+        elif family == "on-cap" and cap is not None and cap >= li:
+            peak = cap
+        else:
+            peak = li
+        out.append(climb(l0 - 1, peak))
+    return out
+
+
+def initial_paths(cfg, family="on-own"):
+    return [mkpath(ops, k) for k, ops in enumerate(initial_orders(cfg, family))]
+
+
+def weights_spec_violations(cfg, orders, rows):
+    """direct statement for the shooting entries of the weight rows load_paths stores: entry j of a plus path is 1
+    iff λ_j ≤ max(order) (non-strict, as Path.check_interfaces), the last entry is 0, the own entry is not 0"""
+    sim = cfg["simulation"]
+    intf = sim["interfaces"]
+    moves = sim["shooting_moves"]
+    n = len(intf)
+    bad = []
+    for i in range(n - 1):
+        ops, w = orders[i + 1], rows[i]
+        if len(w) != n or float(w[-1]) != 0.0:
+            bad.append((i, "shape"))
+            continue
+        for j in range(n - 1):
+            if moves[j + 1] != "wf" and float(w[j]) != (1.0 if intf[j] <= max(ops) else 0.0):
+                bad.append((i, f"entry {j} is {float(w[j])} with λ_{j}={intf[j]} and max={max(ops)}"))
+        if float(w[i]) == 0.0:
+            bad.append((i, "own weight 0"))
+    return bad
+
+
+def cv_line(cfg, ops):
+    """request for the Lean model of calc_cv_vector (everything doubled: half-integers become integers)"""
+    sim = cfg["simulation"]
+    cap = sim["tis_set"].get("interface_cap")
+    d = lambda x: int(round(2 * x))  # noqa: E731
+    mv = [1 if m == "wf" else 0 for m in sim["shooting_moves"][1:]]
+    return f"cv {'-' if cap is None else d(cap)} {lst([d(x) for x in sim['interfaces']])} {lst(mv)} {lst([d(x) for x in ops])}"
+
+
+def initialise(cfg, family="on-own"):
+    """as setup_internal does: REPEX_state → initiate_ensembles → load_paths_from_disk (paths stored in the
+    library's format) → load_paths (weights from the real calc_cv_vector) → first W picks.
+    Returns (stage, error kind | None, state, orders, weight rows of the plus paths)."""
+    from infretis.classes.path import load_paths_from_disk
     from infretis.classes.repex import REPEX_state
     stage = "REPEX_state"
+    st = None
+    orders, rows = None, None
     try:
         st = REPEX_state(cfg, minus=True)
         stage = "initiate_ensembles"
         st.initiate_ensembles()
         if len(st.ensembles) != len(cfg["simulation"]["interfaces"]):
-            return stage, "wrong-number-of-ensembles", st
+            return stage, "wrong-number-of-ensembles", st, orders, rows
         stage = "load_paths"
-        st.load_paths(initial_paths(cfg))
+        orders = initial_orders(cfg, family)
+        store_paths([mkpath(ops, k) for k, ops in enumerate(orders)])
+        paths = load_paths_from_disk(cfg)
+        st.load_paths(paths)
+        rows = [tuple(float(x) for x in p.weights) for p in paths[1:]]
         stage = "first-picks"
         st.engine_occ = engine_occ_of(cfg)
         err = first_picks(st, cfg)
         if err:
-            return stage, err, st
-        return "done", None, st
+            return stage, err, st, orders, rows
+        return "done", None, st, orders, rows
     except Exception as e:  # noqa: BLE001
-        return stage, err_kind(e), None if stage == "REPEX_state" else st
+        return stage, err_kind(e), st, orders, rows
 
 
 def strip_restart(cfg):
@@ -561,7 +658,7 @@ def fail_once(ctx, sig, what, rep):
         ctx.fail(sig, what, rep)
 
 
-def judge(ctx, real, c, code_setup, cfg, do_init, do_restart):
+def judge(ctx, real, c, code_setup, cfg, do_init, do_restart, families=(), wcases=None):
     """property predicate on the real outcome of one case; returns the branch name"""
     obj = case_obj(c)
     if cfg is not None:
@@ -571,16 +668,35 @@ def judge(ctx, real, c, code_setup, cfg, do_init, do_restart):
             fail_once(ctx, f"C18:{hole}", f"setup_config accepted a configuration violating: {', '.join(bad)}",
                      {"case": obj, "violated": bad, "expect": "rejected with TOMLConfigError"})
         if do_init:
-            stage, err, st = initialise(copy.deepcopy(cfg))
-            ctx.hit(f"init:{'invalid-' if bad else ''}{stage}{':' + err if err else ''}")
-            if err is not None and not bad:
-                sim = cfg["simulation"]
-                why = ("ensemble_engines-shorter-than-ensembles"
-                       if len(sim["ensemble_engines"]) < len(sim["interfaces"]) else
-                       "ensemble-without-engine" if any(len(x) == 0 for x in sim["ensemble_engines"]) else stage)
-                fail_once(ctx, f"C18:accepted-valid-but-init-fails:{why}",
-                         f"accepted configuration raises {err} in {stage}",
-                         {"case": obj, "stage": stage, "error": err})
+            fams = ["on-own"] + [f for f in (families or ()) if f != "on-own"]
+            st = None
+            err = None
+            for fam in fams:
+                stage, ferr, fst, orders, rows = initialise(copy.deepcopy(cfg), fam)
+                ctx.hit(f"init[{fam}]:{'invalid-' if bad else ''}{stage}{':' + ferr if ferr else ''}")
+                if fam == "on-own":
+                    st, err = fst, ferr
+                if bad:
+                    continue
+                rep = {"case": obj, "stage": stage, "error": ferr, "initial_paths": fam,
+                       "orders": orders}
+                if ferr is not None:
+                    sim = cfg["simulation"]
+                    why = ("ensemble_engines-shorter-than-ensembles"
+                           if len(sim["ensemble_engines"]) < len(sim["interfaces"]) else
+                           "ensemble-without-engine" if any(len(x) == 0 for x in sim["ensemble_engines"]) else
+                           "boundary-initial-path" if stage == "load_paths" and fam in BOUNDARY else stage)
+                    fail_once(ctx, f"C18:accepted-valid-but-init-fails:{why}",
+                              f"accepted configuration raises {ferr} in {stage} (valid initial paths, family {fam})", rep)
+                if rows is not None:
+                    wbad = weights_spec_violations(cfg, orders, rows)
+                    if wbad:
+                        fail_once(ctx, "C18:initial-weights",
+                                  f"weight row of the [{wbad[0][0]}+] initial path: {wbad[0][1]} (family {fam})",
+                                  dict(rep, rows=rows, violations=[list(x) for x in wbad[:5]]))
+                    elif wcases is not None:
+                        for i, w in enumerate(rows):
+                            wcases.append((obj, fam, i, cv_line(cfg, orders[i + 1]), w))
             if err is None and do_restart and st is not None:
                 r, before, again, ierr = restart_roundtrip(real, st)
                 ctx.hit(f"restart-roundtrip:{r}")
@@ -687,9 +803,16 @@ def _run(ctx, real):
     have_model = ctx._driver_ok
     if have_model:
         out = ctx.driver([to_line("all", c) for c in cases])
-    real.make_base_restart()
+    problem = real.make_base_restart()
+    if problem is not None:
+        why = "boundary-initial-path" if problem[0] == "load_paths" else problem[0]
+        fail_once(ctx, f"C18:accepted-valid-but-init-fails:{why}",
+                  f"the valid base configuration (from which the library should write restart.toml) raises "
+                  f"{problem[1]} in {problem[0]}",
+                  {"case": case_obj(real.base_case), "stage": problem[0], "error": problem[1], "initial_paths": "on-own"})
     n_init = 0
     n_restart = 0
+    wcases = []
     class_seen = {}
     rcases = []     # (case index, variant, two_files, code outcome) of the restart route, model compared afterwards
     per_class = 20 if ctx.quick else 200
@@ -716,7 +839,8 @@ def _run(ctx, real):
         do_restart = do_init and n_restart < restart_budget and (k % 7 == 0 or k < len(WITNESSES))
         if do_init:
             n_init += 1
-        branch = judge(ctx, real, c, code_setup, cfg, do_init, do_restart)
+        fams = FAMILIES if (not ctx.quick or k < len(WITNESSES)) else (FAMILIES[1 + n_init % (len(FAMILIES) - 1)],)
+        branch = judge(ctx, real, c, code_setup, cfg, do_init, do_restart, fams, wcases)
         if do_restart and cfg is not None:
             n_restart += 1
         # ---- the same case through the restart route: every class at least `per_class` times, and a fixed
@@ -741,6 +865,14 @@ def _run(ctx, real):
             if rcode != m:
                 ctx.disagree({"fn": "setup_config(restart file)", "variant": variant, "two_files": two_files,
                               "case": case_obj(cases[k])}, rcode, m)
+    if have_model and wcases:
+        wout = ctx.driver([line for (_, _, _, line, _) in wcases])
+        for (obj, fam, i, line, w), m in zip(wcases, wout):
+            code_row = lst([int(x) if float(x) == int(x) else x for x in w])
+            if code_row != m:
+                ctx.disagree({"fn": "calc_cv_vector in load_paths vs Infretis.WF.cvVector", "case": obj,
+                              "initial_paths": fam, "ensemble": i, "request": line}, code_row, m)
+    ctx.extra["initial_weight_rows_compared"] = ctx.extra.get("initial_weight_rows_compared", 0) + len(wcases)
     ctx.extra["restart_route_cases"] = ctx.extra.get("restart_route_cases", 0) + len(rcases)
     ctx.extra["restart_route_classes"] = len(class_seen)
     ctx.extra.pop("_sigs", None)
@@ -753,9 +885,12 @@ def _run(ctx, real):
         "restart branch: the model (setupFile) knows cstep / restarted_from / steps / 'active paths on disk'; the rest "
         "of [current] is taken verbatim from a restart.toml written by the library; the real round trip is compared on "
         "the whole dict except current.restarted_from",
-        "initialisation is run for real up to the first W picks (prep_md_items); after a restart through the real "
-        "setup_internal with def_globals (MD engine creation) and setup_logger stubbed; initial paths are unit-step "
-        "paths reaching λ_i",
+        "initialisation is run for real as setup_internal does (REPEX_state, initiate_ensembles, paths stored in the "
+        "library's format and read by load_paths_from_disk, load_paths with the real calc_cv_vector) up to the first "
+        "W picks (prep_md_items); after a restart through the real setup_internal with def_globals (MD engine "
+        "creation) and setup_logger stubbed; initial paths are valid unit-step paths whose extreme value sits exactly "
+        "ON an interface (own, higher, cap, last; [0-]: λ0, λ₋₁) or strictly inside; their weight rows are compared "
+        "with the direct statement (shooting entries) and with Infretis.WF.cvVector (all entries)",
         "tomli/tomli_w are trusted to be lossless on what is written",
     ]:
         if a not in ctx.assumptions:
@@ -776,7 +911,7 @@ def replay(ctx, obj):
         print("setup_config:", code_setup)
         nfail = lambda: sum(v for k, v in ctx.hist.items() if k.startswith("fail:"))  # noqa: E731
         n0 = nfail()
-        judge(ctx, real, c, code_setup, cfg, True, True)
+        judge(ctx, real, c, code_setup, cfg, True, True, FAMILIES)
         # … and through the restart route (recorded variant / entry form, default: a restart that goes on)
         real.make_base_restart()
         variant = r.get("variant", "go")
